@@ -127,14 +127,25 @@ def r05_1(ctx):
         r.analysed(h)
         canon = guard_canon(F, lambda e: e == ("param", 2))
         rows, bad = 0, []
+        tags = {}
+        LO = "action::log_override::LogOverride"
         for p in Sym(h, copies=True).paths():
             if p.end[0] != "ret":
                 continue
             assign, other = path_assignment(p, canon)
             ret = p.end[1]
-            d = dict(ret[3]) if ret[0] == "agg" else {}
-            primary = mentions_field(d.get("0", ()), "log_override", "action::log_override::LogOverride") and d.get("2") == ("const", True) and mentions_field(d.get("1", ()), "rule_id")
-            fallback = mentions_field(d.get("0", ()), "fallback_log_override") and d.get("2") == ("const", False) and mentions_field(d.get("1", ()), "fallback_rule_id")
+            # the decision returned: a tuple, a struct or an enum variant; it is the primary one when it
+            # is built from log_override / rule_id, the fallback when built from the fallback_* fields;
+            # whatever else it holds (a `handled` flag, a source tag) must tell the two apart
+            own = mentions_field(ret, "log_override", LO) and mentions_field(ret, "rule_id", LO)
+            fb = mentions_field(ret, "fallback_log_override", LO) and mentions_field(ret, "fallback_rule_id", LO)
+            tag = tuple(sorted({repr(x) for x in walk(ret) if x[0] == "const"} | {"variant:%s" % x[2] for x in walk(ret) if x[0] == "agg" and x[2] and x[2] not in ("Some", "None")}))
+            primary = own and not (mentions_field(ret, "fallback_log_override", LO) or mentions_field(ret, "fallback_rule_id", LO))
+            fallback = fb and not (mentions_field(ret, "log_override", LO) or mentions_field(ret, "rule_id", LO))
+            if primary:
+                tags.setdefault("primary", set()).add(tag)
+            if fallback:
+                tags.setdefault("fallback", set()).add(tag)
             for full in consistent_assignments(assign, ["E", "X", "C"]):
                 if not consistent_with(other, full, canon):
                     continue
@@ -144,6 +155,8 @@ def r05_1(ctx):
                     bad.append("E=%d X=%d C=%d -> not the primary override" % (full["E"], full["X"], full["C"]))
                 if not want and not fallback:
                     bad.append("E=%d X=%d C=%d -> not the fallback" % (full["E"], full["X"], full["C"]))
+        if len(tags.get("primary", ())) != 1 or len(tags.get("fallback", ())) != 1 or tags["primary"] == tags["fallback"]:
+            bad.append("the primary and the fallback decision are not told apart by a constant part of the result: %s" % {k: sorted(v) for k, v in tags.items()})
         r.ob("guard:LogOverride::get_log_override", not bad and rows >= 5, h.site, "primary <=> admits, else fallback (%d rows)" % rows if not bad else "; ".join(sorted(set(bad))[:4]))
         # StatusCodeUpdate::get_status_code
         k = F.fn("action::status_code_update::StatusCodeUpdate::get_status_code")
